@@ -418,7 +418,11 @@ func genOp(r *Rng, mem []AW, everCreated []string) Op {
 		n := pickName()
 		return Op{Kind: "Scan", Name: n, Pw: pwFor(n), N: r.Intn(4), Dfail: dfail}
 	case k < 56:
-		return Op{Kind: "SetLabel", Name: pickName(), Label: 1 + r.Intn(len(labels)-1), Dfail: dfail}
+		l := 1 + r.Intn(len(labels)-1)
+		if r.Chance(10) {
+			l = 0 // an empty label is accepted by the service
+		}
+		return Op{Kind: "SetLabel", Name: pickName(), Label: l, Dfail: dfail}
 	case k < 65:
 		n := pickName()
 		p := 1 + r.Intn(len(pws)-1)
@@ -450,7 +454,7 @@ func run(args []string) error {
 	f := ParseFlags("c19", args)
 	logging.Disable()
 	r := NewRng(f.Seed)
-	nseq := f.Budget(40, 600)
+	nseq := f.Budget(150, 2500)
 	base := ""
 	if st, e := os.Stat("/dev/shm"); e == nil && st.IsDir() {
 		base = "/dev/shm"
